@@ -42,14 +42,21 @@ type HCall struct {
 	Case
 	Ctor0 bool `json:"ctor0"` // a verifier can be constructed for the presented key WITHOUT the opt-in
 	Rot   int  `json:"rot"`   // which entry point goes first
+	// an Interlude instead of a call: between two calls the caller is asked, with the same verifiers, about an
+	// unencodable object that has nothing to do with the session; it is refused (Expect = "error")
+	Interlude *struct {
+		Kind  string `json:"kind"`
+		Field string `json:"field"`
+	} `json:"interlude,omitempty"`
 }
 
 // Walk is one line of the export of MCSigVerifyHist.tla.
 type Walk struct {
 	Base struct {
-		Kind string `json:"kind"`
-		Key  string `json:"key"`
-		Hash int    `json:"hash"`
+		Kind  string `json:"kind"`
+		Key   string `json:"key"`
+		Hash  int    `json:"hash"`
+		Shape Shape  `json:"shape"`
 	} `json:"base"`
 	Calls []HCall `json:"calls"`
 	Idx   *int    `json:"idx,omitempty"`
@@ -152,12 +159,12 @@ func (o *objs) present(w *world, hp *hpres) {
 		o.te.Extensions = ct.CTExtensions(o.lext.set(lf.ext))
 		o.track("leaf extensions", o.te.Extensions)
 		o.te.X509Entry, o.te.PrecertEntry = nil, nil
-		if len(p.f.cert) > 0 {
+		if p.f.hasCertArm() {
 			o.x509e.Data = o.cert.set(p.f.cert)
 			o.te.X509Entry = &o.x509e
 			o.track("leaf certificate", o.x509e.Data)
 		}
-		if len(p.f.tbs) > 0 {
+		if p.f.hasTBSArm() {
 			o.pre.IssuerKeyHash = p.f.ikh
 			o.pre.TBSCertificate = o.tbs.set(p.f.tbs)
 			o.te.PrecertEntry = &o.pre
@@ -259,7 +266,8 @@ type hsession struct {
 	signer *keyPair
 	o      objs
 	prev   string // mutation class of the previous call on this route
-	prevV  string // and what it was: "start", "valid" (accepted alone), "rejected"
+	prevV  string // and what it was: "start", "valid" (accepted alone), "rejected", "refused" (no signed bytes: Unencodable)
+	resid  []byte // what the step before would have left behind had it been refused part-way (nil: it was not refused)
 
 	// LeafHash law (per route): equal arguments give equal hashes, different (entry, issuer, timestamp) different ones
 	lhByArgs  map[string][32]byte
@@ -304,7 +312,12 @@ func (s *hsession) check(route string, ci int, hc *HCall, hp *hpres, e ep) {
 	if route != "" {
 		name += "(" + route + ")"
 	}
-	s.r.rep.Eval(fmt.Sprintf("hist|%s|%s|%s|%s>%s|%s", name, hc.C.Kind, family(hc.C.Key), s.prev, hp.class, e.want))
+	// (the synthetic entry has no certificate chain: the shape of the session's chain plays no part on that route)
+	ktag := hc.kindTag()
+	if route == "synthetic" {
+		ktag = hc.C.Kind
+	}
+	s.r.rep.Eval(fmt.Sprintf("hist|%s|%s|%s|%s>%s|%s", name, ktag, family(hc.C.Key), s.prev, hp.class, e.want))
 	rp := func() map[string]any {
 		m := map[string]any{"walk": s.wk, "idx": s.idx, "route": route, "call": ci, "entry_point": name, "detail": detail, "concurrent": s.conc}
 		if hp.pmOK {
@@ -321,14 +334,14 @@ func (s *hsession) check(route string, ci int, hc *HCall, hp *hpres, e ep) {
 			site = "panic:history"
 		}
 		// stable: entry point, object kind, whether the previous presentation was the valid one, the mutation class now
-		fp := fmt.Sprintf("%s:%s:%s:after=%s:%s:want=%s:got=%s", site, name, hc.C.Kind, s.prevV, hp.class, e.want, got)
+		fp := fmt.Sprintf("%s:%s:%s:after=%s:%s:want=%s:got=%s", site, name, ktag, s.prevV, hp.class, e.want, got)
 		if hc.C.Mut.M == "value" && hc.C.Mut.T == "inner-trailing" && e.want == "error" && got == "ok" {
 			fp = "verify:der-inner-trailing-accepted:" + family(hc.C.Key) // the one-call defect of that name, whatever the route to it
 		}
 		again, _ := call(e.f)
-		s.r.rep.Violate(fp, fmt.Sprintf("call %d of a session on one %s signed by a %s key with %s, through %s: the object is presented with mutation %s (opt-in %v) after a call that presented it with %s; "+
+		s.r.rep.Violate(fp, fmt.Sprintf("call %d of a session on one %s signed by a %s key with %s, through %s: the object is presented with mutation %s (opt-in %v) after a step that presented %s; "+
 			"alone this call returns %s, here it returns %s %s (repeated at once: %s).  Verification must be a function of its arguments.",
-			ci+1, hc.C.Kind, hc.C.Key, hashClass(hc.C.Hash), name, hp.class, hc.C.Allow, s.prev, e.want, got, detail, again), rp())
+			ci+1, ktag, hc.C.Key, hashClass(hc.C.Hash), name, hp.class, hc.C.Allow, s.prev, e.want, got, detail, again), rp())
 	}
 	if e.adjustsLeafTimestamp && s.o.te.Timestamp != s.o.teWas.Timestamp && s.o.te.Timestamp == s.o.sct.Timestamp {
 		s.r.rep.Add("leaf_timestamp_adjusted_by_LogInfo", 1)
@@ -344,12 +357,19 @@ func (s *hsession) check(route string, ci int, hc *HCall, hp *hpres, e ep) {
 // presentation builds (once per session, route and mutation) what a call presents.
 func (s *hsession) presentation(route string, hc *HCall, base *fields, val []byte, emb *embedded, cache map[string]*hpres, alt map[string]*embedded) *hpres {
 	key := fmt.Sprintf("%s/%d/%s", hc.C.Mut.M, hc.C.Mut.N, hc.C.Mut.T)
+	r, w := s.r, s.w
+	w.residue = nil
+	if hc.C.Mut.M == "value" && hc.C.Mut.T == "glued" && s.resid != nil {
+		// the signature is over (what the refused step before would have left behind) || (canonical bytes)
+		w.residue = s.resid
+		key += fmt.Sprintf("/%x", sha256.Sum256(s.resid))
+	}
 	if hp := cache[key]; hp != nil {
 		return hp
 	}
-	r, w := s.r, s.w
 	c := &hc.Case
 	p, err := r.mutate(w, c, base, s.signer, val)
+	w.residue = nil
 	if err != nil {
 		r.infra("history: mutation %s: %v", c.mutClass(), err)
 		return nil
@@ -372,10 +392,13 @@ func (s *hsession) presentation(route string, hc *HCall, base *fields, val []byt
 	case emb != nil:
 		// the certificate carries the SCT exactly as presented; what may differ from what was signed is the
 		// certificate (tbs), its issuer (issuerkeyhash) or anything inside the SCT
+		if p.f.unser != "" && p.f.unser != "extensions" {
+			break // no certificate stands for an entry with an empty TBSCertificate or an undefined type
+		}
 		e := emb
 		if c.C.Mut.M == "field" && c.C.Mut.T == "tbs" {
 			if alt["tbs"] == nil {
-				e2, err := w.newEmbedded()
+				e2, err := w.newEmbeddedOrder(emb.order)
 				if err != nil {
 					r.infra("history: embedded certificate: %v", err)
 					return nil
@@ -384,7 +407,14 @@ func (s *hsession) presentation(route string, hc *HCall, base *fields, val []byt
 			}
 			e = alt["tbs"]
 		}
-		final, err := e.final(p.sctBytes())
+		sctb := p.sctBytes()
+		if p.f.unser == "extensions" {
+			// an SCT that has no encoding cannot be embedded: the certificate carries the SCT as signed
+			q := *p
+			q.f = base
+			sctb = q.sctBytes()
+		}
+		final, err := e.final(sctb)
 		if err != nil {
 			r.infra("history: embedded certificate: %v", err)
 			return nil
@@ -399,7 +429,8 @@ func (s *hsession) presentation(route string, hc *HCall, base *fields, val []byt
 		hp.nodes = p.f.chain
 		id := append([]byte("chain"), p.f.chain[0].DER...)
 		if len(p.f.chain) > 1 {
-			id = append(id, p.f.chain[1].Cert.RawSubjectPublicKeyInfo...)
+			// (the key the issuer key hash names: the last certificate of the chain as presented)
+			id = append(id, p.f.chain[len(p.f.chain)-1].Cert.RawSubjectPublicKeyInfo...)
 		}
 		hp.entID = sha256.Sum256(id)
 	}
@@ -511,7 +542,7 @@ func (s *hsession) leafHashLaw(hp *hpres) error {
 	}
 	var ts [8]byte
 	binary.BigEndian.PutUint64(ts[:], o.sct.Timestamp)
-	args := fmt.Sprintf("%x|%x|%v|%x", hp.entID, ts, hp.emb, sha256.Sum256(hp.p.sctBytes()))
+	args := fmt.Sprintf("%x|%x|%v|%x", hp.entID, ts, hp.emb, hp.p.sctDigest())
 	for _, n := range hp.nodes {
 		args += fmt.Sprintf("|%x", sha256.Sum256(n.DER))
 	}
@@ -567,15 +598,27 @@ func (s *hsession) routes() []hroute {
 	case "SCTx509":
 		return []hroute{{"", w.baseline(kind, false), nil}, {"synthetic", w.baseline(kind, true), nil}}
 	case "SCTprecert":
-		out := []hroute{{"", w.baseline(kind, false), nil}}
-		if e, err := w.newEmbedded(); err != nil {
-			s.r.infra("history: embedded certificate: %v", err)
-		} else {
-			b := w.baseline(kind, true)
-			e.fields(b)
-			out = append(out, hroute{"embedded", b, e})
+		// the shape of the chain: the plain route presents the precertificate chain in that shape; the embedded form
+		// has no precertificate issuer of its own (its order is the position of the SCT list); the synthetic entry has
+		// no certificate at all
+		sh := s.wk.Base.Shape
+		if sh.Iss == "" {
+			sh = stdShape
 		}
-		return append(out, hroute{"synthetic", w.baseline(kind, true), nil})
+		out := []hroute{{"", w.baselineShape(kind, false, sh), nil}}
+		if sh.Iss == "direct" {
+			if e, err := w.newEmbeddedOrder(sh.Order); err != nil {
+				s.r.infra("history: embedded certificate: %v", err)
+			} else {
+				b := w.baseline(kind, true)
+				e.fields(b)
+				out = append(out, hroute{"embedded", b, e})
+			}
+		}
+		if sh.Order == "std" {
+			out = append(out, hroute{"synthetic", w.baseline(kind, true), nil})
+		}
+		return out
 	}
 	return []hroute{{"", w.baseline(kind, false), nil}}
 }
@@ -602,7 +645,7 @@ func (s *hsession) runRoute(rt hroute, shared *sync.WaitGroup) {
 		return
 	}
 	cache, alt := map[string]*hpres{}, map[string]*embedded{}
-	s.prev, s.prevV = "start", "start"
+	s.prev, s.prevV, s.resid = "start", "start", nil
 	s.lhByArgs, s.lhByEntry = map[string][32]byte{}, map[[32]byte]string{}
 	defer func() {
 		for _, hp := range cache {
@@ -613,6 +656,12 @@ func (s *hsession) runRoute(rt hroute, shared *sync.WaitGroup) {
 	}()
 	for ci := range s.wk.Calls {
 		hc := &s.wk.Calls[ci]
+		if hc.Interlude != nil {
+			if shared == nil {
+				s.interlude(rt.name, ci, hc)
+			}
+			continue
+		}
 		if hc.C.Mut.M == "field" && hc.C.Mut.T == "entrytype" && rt.name != "synthetic" {
 			continue // only the synthetic entry has two arms with the same bytes
 		}
@@ -648,15 +697,84 @@ func (s *hsession) runRoute(rt hroute, shared *sync.WaitGroup) {
 		for _, e := range s.entryPoints(rt.name, hc, hp) {
 			s.check(rt.name, ci, hc, hp, e)
 		}
-		s.prev, s.prevV = hp.class, "rejected"
+		s.prev, s.prevV, s.resid = hp.class, "rejected", nil
 		if hc.Expect == "ok" {
 			s.prevV = "valid"
+		}
+		if hp.p.f.unser != "" {
+			s.prevV, s.resid = "refused", hp.p.f.residue()
 		}
 	}
 }
 
+// interlude: the caller is asked about an unencodable object of another kind of session, on objects of its own,
+// with the verifiers it keeps.  Every entry point must refuse it with an error (clause Unencodable) - and the calls
+// of the session that follow must return what they return alone (that is checked where they are made).
+func (s *hsession) interlude(route string, ci int, hc *HCall) {
+	w, u := s.w, hc.Interlude
+	base := w.baseline(u.Kind, false)
+	f, err := w.unserField(base, u.Field)
+	if err != nil {
+		s.r.infra("history: interlude %+v: %v", *u, err)
+		return
+	}
+	val := make([]byte, 64+w.rng.Intn(16))
+	w.rng.Read(val)
+	if msg, ok := base.msg(); ok && w.rng.Intn(2) == 0 {
+		// (the object as it would be signed were the field encodable)
+		if v, err := refSign(s.signer, s.wk.Base.Hash, msg); err == nil {
+			val = v
+		}
+	}
+	p := &presented{f: f, key: s.signer, hash: s.wk.Base.Hash, sig: declaredSig(s.signer.typ), val: val}
+	if p.hash == 0 {
+		p.hash = 4
+	}
+	ll := s.long[p.key]
+	sct, entry := p.sct(), ct.LogEntry{Leaf: p.leaf()}
+	type iep struct {
+		name string
+		f    func() error
+	}
+	eps := []iep{{"SignatureVerifier{}.VerifySCTSignature[kept]", func() error { return ll.lit.VerifySCTSignature(sct, entry) }}}
+	if ll.sv != nil {
+		eps = append(eps, iep{"SignatureVerifier.VerifySCTSignature[kept]", func() error { return ll.sv.VerifySCTSignature(sct, entry) }})
+	}
+	if ll.li != nil {
+		eps = append(eps, iep{"LogInfo.VerifySCTSignature[kept]", func() error { return ll.li.VerifySCTSignature(sct, p.leaf()) }})
+	}
+	if f.chain != nil {
+		chain := w.repoChain(f.chain)
+		eps = append(eps, iep{"ctutil.VerifySCTWithVerifier[kept]", func() error { return ctutil.VerifySCTWithVerifier(ll.lit, chain, &sct, false) }})
+	}
+	k := hc.Rot % len(eps)
+	eps = append(eps[k:], eps[:k]...)
+	class := "unser=" + u.Field
+	for _, e := range eps {
+		got, detail := call(e.f)
+		name := e.name
+		if route != "" {
+			name += "(" + route + ")"
+		}
+		s.r.rep.Eval(fmt.Sprintf("hist|interlude|%s|%s|%s|%s", name, u.Kind, class, family(s.signer.typ)))
+		if got != "error" {
+			site := "history"
+			if got == "panic" {
+				site = "panic:history"
+			}
+			s.r.rep.Violate(fmt.Sprintf("%s:interlude:%s:%s:%s:want=error:got=%s", site, e.name, u.Kind, class, got),
+				fmt.Sprintf("step %d of a session (%s): %s is asked about a %s whose %s has no encoding (RFC 5246 vector bounds / entry type enumeration): "+
+					"there are no signed bytes, the specification says error, the code says %s %s", ci+1, s.wk.Base.Kind, e.name, u.Kind, u.Field, got, detail),
+				map[string]any{"walk": s.wk, "idx": s.idx, "route": route, "call": ci, "entry_point": e.name, "detail": detail, "concurrent": s.conc})
+		}
+	}
+	s.prev, s.prevV, s.resid = "interlude:"+class, "refused", f.residue()
+}
+
 const histRule = "sessions exported by TLC from SigVerifyHist.tla (one signed object; a random walk over its presentations: valid, one " +
-	"mutation, valid again, the same call twice, the opt-in flag toggled) replayed on ONE set of caller objects rewritten in place " +
+	"mutation, valid again, the same call twice, the opt-in flag toggled; refused steps: the object with an unencodable field, " +
+	"interludes about an unencodable object of another kind, then the valid object or a signature over residue || signed bytes; " +
+	"precertificate chains in the session's shape) replayed on ONE set of caller objects rewritten in place " +
 	"(SCT/STH/DigitallySigned structs, byte buffers, chain slice, long-lived verifiers and LogInfo), route by route (plain, embedded, " +
 	"synthetic), one session after the other on one goroutine: every call must return what the decision table says for it alone and " +
 	"leave its arguments as they were; ctutil.LeafHash must be a function of (chain, timestamp, embedded) that tells different " +
@@ -679,7 +797,9 @@ func walkKeyTypes(walks []Walk) ([]string, map[string]bool) {
 	var cs []Case
 	for i := range walks {
 		for j := range walks[i].Calls {
-			cs = append(cs, walks[i].Calls[j].Case)
+			if walks[i].Calls[j].Interlude == nil {
+				cs = append(cs, walks[i].Calls[j].Case)
+			}
 		}
 	}
 	return neededKeyTypes(cs)
